@@ -38,7 +38,7 @@ Inductive eres :=
 
 Inductive case :=
 | CDiff (a b : value) (exp : res)
-| CEnv (o n : value) (exp : eres)
+| CEnv (ss : stamp_state) (o n : value) (exp : eres)
 | CKeys (ks : list str).       (* functionEnvKeys as read from the source *)
 
 Definition list_eqb {T} (eqb : T -> T -> bool) : list T -> list T -> bool :=
@@ -134,8 +134,8 @@ Definition res_eqb (a : option res) (b : res) : bool :=
 Definition check_case (route_size : Z) (c : case) : bool :=
   match c with
   | CDiff a b exp => res_eqb (res_of (diff route_size a b)) exp
-  | CEnv o n exp =>
-      match diff_env route_size o n, exp with
+  | CEnv se o n exp =>
+      match diff_env se route_size o n, exp with
       | Ok (u, r), EOk u' r' => Bool.eqb u u' && str_eqb r r'
       | ErrDepth, EErr => true
       | Panic, EPanic => true
